@@ -123,6 +123,24 @@ def explore_and_prove(fn, assumptions, goal_of, max_paths=5000, timeout_ms=20000
     return out
 
 
+def conjunct_prover(ctx, pc, g):
+    """prove a conjunction one conjunct at a time (many small nlsat problems instead of one large one); 'sat' with a model of the first
+    conjunct that fails, 'unknown' only if some conjunct stays undecided and no generic point refutes it"""
+    parts = list(g.children()) if z3.is_and(g) else [g]
+    unknown = []
+    for c in parts:
+        r, m = ctx.model(*(list(pc) + [z3.Not(c)]))
+        if r == "sat":
+            return r, m
+        if r != "unsat":
+            unknown.append(c)
+    for c in unknown:
+        m = point_witness(list(ctx.assumptions) + list(pc) + [z3.Not(c)])
+        if m is not None:
+            return "sat", m
+    return ("unknown" if unknown else "unsat"), None
+
+
 def point_witness(formulas, tries=12):
     """a model of the conjunction found by instantiating every free variable at generic points (None if none of the points satisfies it)"""
     from .zsym import free_vars
